@@ -105,6 +105,10 @@ def dump_obj(o):
             fields["v"] = _np(o.v)
             fields["g"] = _np(o.g)
         return dict(type="factor", head=(factor_kind(o), o.R, o.D), fields=fields)
+    if isinstance(o, gt_cond.NNControlGaussianConditional):
+        return dict(type="cond", head=(0, o.R, o.Dy, o.Dx),
+                    fields={"M": np.zeros((o.R, o.Dy, o.Dx)), "b": np.zeros((o.R, o.Dy)), "Sigma": _np(o.Sigma),
+                            "Lambda": _np(o.Lambda), "ln_det_Sigma": _np(o.ln_det_Sigma)})
     if isinstance(o, gt_cond.ConditionalIdentityGaussianPDF):
         diag = int(isinstance(o, gt_cond.ConditionalIdentityDiagGaussianPDF))
         return dict(type="condid", head=(diag, o.R, o.Dy),
@@ -276,6 +280,54 @@ class Machine:
         return self._emit(dst, "condid", toks,
                           lambda: cls(Sigma=j(Sigma), Lambda=j(Lambda), ln_det_Sigma=j(ln_det_Sigma)),
                           dict(R=R, D=D, diag=diag))
+
+    # -- NN-controlled conditional: the control function is a parameter (affine map u -> W'u + c) --
+    def nncond(self, Dy, Dx, Du, Sigma, W, c):
+        dst = self.new()
+        W = np.asarray(W); c = np.asarray(c)
+        ctrl = lambda u: jnp.asarray(u) @ jnp.asarray(W) + jnp.asarray(c)
+        self.ctrl = getattr(self, "ctrl", {})
+        self.ctrl[dst] = (W, c)
+        return self._emit(dst, "nncond", [Dy, Dx] + arr_tok(Sigma),
+                          lambda: gt_cond.NNControlGaussianConditional(Sigma=jnp.asarray(Sigma), num_cond_dim=Dx,
+                                                                       num_control_dim=Du, control_func=ctrl),
+                          dict(Dy=Dy, Dx=Dx, Du=Du))
+
+    def nn_out(self, nn, u):
+        W, c = self.ctrl[nn]
+        return np.asarray(u) @ W + c
+
+    def nn_set_control(self, nn, u):
+        dst = self.new()
+        out = self.nn_out(nn, u)
+        return self._emit(dst, "nn_set_control", [nn, out.shape[0]] + arr_tok(out),
+                          lambda: self.regs[nn].set_control_variable(jnp.asarray(u)), dict(Ru=out.shape[0]))
+
+    def nn_call(self, which, nn, u, *args):
+        """an NN-conditional method with control u; the model side is set_control_variable followed by
+        the general-class operation (two protocol lines)"""
+        t = self.nn_set_control(nn, u)
+        dst = self.new()
+        ju = jnp.asarray(u)
+        if which in ("joint", "marginal", "conditional", "cond_entropy", "mutual_information"):
+            name = {"joint": "affine_joint_transformation", "marginal": "affine_marginal_transformation",
+                    "conditional": "affine_conditional_transformation", "cond_entropy": "conditional_entropy",
+                    "mutual_information": "mutual_information"}[which]
+            p = args[0]
+            return self._emit(dst, which, [t, p], lambda: getattr(self.regs[nn], name)(self.regs[p], u=ju), dict(which=which, nn=True))
+        if which == "set_y":
+            y = args[0]
+            return self._emit(dst, "set_y", [t, y], lambda: self.regs[nn].set_y(self.regs[y], u=ju), dict(nn=True))
+        if which == "condition_on_x":
+            x = args[0]
+            return self._emit(dst, "condition_on_x", [t, x], lambda: self.regs[nn].condition_on_x_u(self.regs[x], ju), dict(nn=True))
+        if which == "log_cond":
+            q = args[0]
+            return self._emit(dst, "log_cond", [t, q], lambda: self.regs[nn].integrate_log_conditional(self.regs[q], u=ju), dict(nn=True))
+        if which == "log_cond_y":
+            p, y = args
+            return self._emit(dst, "log_cond_y", [t, p, y], lambda: self.regs[nn].integrate_log_conditional_y(self.regs[p], u=ju, y=self.regs[y]), dict(nn=True))
+        raise ValueError(which)
 
     # -- factor / measure ----------------------------------------------------------------------
     def evalln(self, f, x, element_wise=False):
